@@ -26,22 +26,22 @@ NOT_YET = {}
 TEXT = {
     "C11": {
         "engine": "engine-G",
-        "technique": "property-based testing: copy (constructor / assignment into empty / non-empty) of samples, generated scene graphs and synthesised files, then generated edit sequences on one side and destruction of it; byte-equality of raw saves and query-battery equality on the other side, under ASan",
-        "level_text": "Every sample x copy kind x edit kind x edited side (enumerated) and thousands of generated cases: the copy must save to the source's bytes, and no edit, save or destruction of one model may change what the other answers or writes; cached geometry pointers that still point into the other model surface as use-after-free under ASan.",
+        "technique": "property-based testing: copy (constructor / assignment into empty / non-empty) of samples, samples with unregistered block types, generated scene graphs, synthesised files and newer-version files with NiTriShape geometry, then generated edit sequences on one side and destruction of it; byte-equality of raw saves and query-battery equality on the other side, under ASan",
+        "level_text": "Every sample x copy kind x edit kind x edited side (enumerated) and thousands of generated cases: the copy must save to the source's bytes (raw, and through the default Save against an independently loaded twin), and no edit, save or destruction of one model may change what the other answers or writes; cached geometry pointers that still point into the other model surface as use-after-free under ASan.",
         "level_note": "Bytes of a model under observation come from raw-saving a fresh copy of it; both sides are queried once before the reference bytes are taken because some getters fill caches lazily.",
         "design_ref": "DESIGN.md section 3, C11",
     },
     "C12": {
         "engine": "engine-G",
         "technique": "property-based testing: generated Skyrim LE/SE models (all shape kinds, skins, strips, segments, colours, model-space shaders, duplicate names) and samples through OptimizeFor in both directions, with metamorphic there-and-back and save/reload; per-shape comparison with the storage formats' tolerances",
-        "level_text": "Thousands of LE and SE models x option combinations: positions bit-exact, triangle sets equal, UVs/colours/weights within storage precision, bone lists, shader, hierarchy, distinct sibling names, partition coverage, reload in the target version and conversion back are all checked. Two root causes (weights of unused vertices, SE files without NiSkinData weights) are recorded as known findings.",
+        "level_text": "Thousands of LE and SE models x option combinations: positions bit-exact, triangle sets equal, UVs/colours/weights within storage precision, bone lists, shader values / textures / alpha property, hierarchy, distinct sibling names, partition coverage, reload in the target version and conversion back are all checked. Two root causes (weights of unused vertices, SE files without NiSkinData weights) are recorded as known findings.",
         "level_note": "Shapes are matched by geometry across the conversion; weights are compared after normalisation at 2e-3; NiOptimizeKeep is only put on unskinned shapes; head-part conversion only when every shape is dynamic-compatible.",
         "design_ref": "DESIGN.md section 3, C12",
     },
     "C14": {
         "engine": "engine-G",
         "technique": "property-based testing: CloneShape of every sample shape and of generated shapes into the same model, a fresh model and another model; parallel walk of the cloned sub-graph comparing canonical block content (hooks H3/H4), source-unchanged and save/reload oracles",
-        "level_text": "Every shape of every sample x three destination kinds (enumerated) plus generated scene graphs, 1-3 repeated clonings: clone content equals the source's, every child reference resolves inside the destination to an equal block that is not shared with the source, bones exist by name, the source model's bytes are unchanged and the clone survives save+reload.",
+        "level_text": "Every shape of every sample x three destination kinds (enumerated) plus generated scene graphs, 1-3 repeated clonings: clone content equals the source's, every child reference resolves inside the destination to an equal block that is not shared with the source, every back pointer into the cloned sub-graph (controller chains on the shader) points at the clone of its target, bones exist by name, the source model's bytes are unchanged and the clone survives save+reload.",
         "level_note": "Normals/tangents are not compared for Skyrim model-space shaders (dropped by design); generated source models keep block 0 as root (this library takes block 0, if a node, for the root).",
         "design_ref": "DESIGN.md section 3, C14",
     },
@@ -69,28 +69,28 @@ TEXT = {
     "C16": {
         "engine": "engine-S",
         "technique": "fault injection: enumeration of truncation points (every offset of small files, header, block boundaries, block heads, strided payload) plus generated cuts on samples and synthesised files; crash/hang oracle in a forked sanitised child running load, query battery, default save, copy, destruction",
-        "level_text": "Every prefix in the enumerated set of each of the 26 samples (all offsets for small files; around every block boundary and array-count region for the others) and thousands of random cuts incl. synthesised files of every block type are loaded, queried, saved and destroyed under ASan/UBSan; any report, signal or reproduced hang is a violation. Exhaustive only for the small files' offsets.",
+        "level_text": "Every prefix in the enumerated set of each of the 26 samples (field-guided cuts from the loader's own read map - every read site at the start, one byte into and one byte before the end of a field -, all offsets for small files, around every block boundary and array-count region for the others; batched 32 to a forked child) and thousands of random cuts incl. synthesised files of every block type are loaded, queried, saved and destroyed under ASan/UBSan; any report, signal or reproduced hang is a violation. Exhaustive only for the small files' offsets.",
         "level_note": "Truncation only shortens what is read (missing bytes read as zero/garbage from an exhausted stream), so allocation sizes stay bounded by the original file; partition/segment queries are excluded from the post-load battery.",
         "design_ref": "DESIGN.md section 3, C16",
     },
     "C15": {
         "engine": "engine-S",
         "technique": "fault injection driven by property-based generation: every reference field located exactly (hook H3) and overwritten by each corruption kind; crash/hang oracle in a forked sanitised child running load, query battery, copy, default save, reload",
-        "level_text": "Exhaustive single-fault enumeration (every reference field x 7 corruption kinds, with several targets for ancestor/in-range) over the sample files (quick: files < 16 KB, thorough: all 26) plus thousands of random 1-3-fault combinations on samples and synthesised files; any sanitizer report, signal, stack overflow, error return or reproduced 20 s hang is a violation.",
+        "level_text": "Exhaustive single-fault enumeration (every reference field x 7 corruption kinds, with several targets for ancestor/in-range) over the sample files (quick: every field of files <= 16 KB and two instances of every (block type, field) of the larger ones; thorough: every field of all 26; 32 faults to a forked child) plus thousands of random 1-3-fault combinations on samples and synthesised files; any sanitizer report, signal, stack overflow, error return or reproduced 20 s hang is a violation.",
         "level_note": "Faults are 4-byte overwrites of fields that pass through NiBlockRef::Sync in the raw-saved file; for synthesised files only failures absent from the unfaulted file are attributed to the fault; hangs must reproduce in three replays.",
         "design_ref": "DESIGN.md section 3, C15",
     },
     "C10": {
         "engine": "engine-G",
         "technique": "property-based testing (stateful): generated skinned shapes and sample shapes x sequences of partition operations; invariants (exact cover, vertex maps, mapped triangles, bone limit, weight normalisation, bone slots, dismember alignment, read-back) after every step and on the saved-and-reloaded file",
-        "level_text": "Thousands of skinned shapes for OB/FO3/SK/SSE with 1..120 bones and arbitrary weights, each driven through 1-4 generated partition operations (labels incl. -1 and out-of-range ids, deletions, default partition, rebuilds); every invariant of the statement is evaluated after each rebuild/reassignment and again on the reloaded file.",
+        "level_text": "Thousands of skinned shapes for OB/FO3/SK/SSE with 1..120 bones and arbitrary weights, each driven through 1-4 generated partition operations (labels incl. -1 and out-of-range ids, deletions, triangle-list edits followed by a rebuild, default partition, rebuilds); every invariant of the statement is evaluated after each rebuild/reassignment and again on the reloaded file.",
         "level_note": "Triangles are generated pairwise distinct; partition deletion is followed by the caller protocol get -> set -> rebuild; after a bare reassignment only coverage/alignment/read-back are demanded in memory (maps and weights are rebuilt later by design).",
         "design_ref": "DESIGN.md section 3, C10",
     },
     "C20": {
         "engine": "tape-pbt",
         "technique": "property-based testing of algebraic laws with stated tolerances: inverse/compose/apply, rotation vector <-> matrix, 3x3/4x4 inversion, average/median of identical transforms, bounding-sphere containment and size bound, recomputed shape bounds; double-precision reference computations",
-        "level_text": "Hundreds of thousands of generated transforms (any angle, scale 0.05..20, |t| <= 1e5), well-conditioned matrices and point sets (1..2000 points incl. duplicates, collinear, coplanar, co-spherical, lattice) plus 1302 structured cases; each law is checked at a tolerance ~20x the worst error measured on the unchanged tree and the measured maxima are reported. Three root causes on the pinned tree are recorded as known findings.",
+        "level_text": "Hundreds of thousands of generated transforms (any angle, scale 0.01..100, |t| <= 1e5), well-conditioned matrices and point sets (1..2000 points incl. duplicates, collinear, coplanar, co-spherical, lattice) plus 1302 structured cases; each law is checked at a tolerance ~20x the worst error measured on the unchanged tree and the measured maxima are reported. Three root causes on the pinned tree are recorded as known findings.",
         "level_note": "Tolerances are empirical with a stated safety factor, not error analyses; half-turn rotations are excluded only from the vector<->matrix conversion law, as the statement does.",
         "design_ref": "DESIGN.md section 3, C20",
     },
@@ -104,7 +104,7 @@ TEXT = {
     "C13": {
         "engine": "engine-G",
         "technique": "property-based testing: generated meshes (1..65535 vertices incl. limits and over-long inputs) per version, round trip through CreateShapeFromData / setter-getter pairs / save-reload with the storage format's quantisation as explicit tolerance",
-        "level_text": "For OB/FO3/SK/SSE/FO4/FO76 and every setter/getter pair, generated geometry must read back bit-exact (or within half / byte quantisation where the format stores halves / bytes) immediately, after the setter (nothing else resized) and after default save + reload. Sampled, with enumerated limit sizes.",
+        "level_text": "For OB/FO3/SK/SSE/FO4/FO76 and every setter/getter pair, generated geometry (incl. triangles with a repeated index) must read back bit-exact (or within half / byte quantisation where the format stores halves / bytes) immediately, after the setter (nothing else resized) and after default save + reload. Sampled, with enumerated limit sizes.",
         "level_note": "Tolerances are the formats' own: 2^-11 relative for halves, 1/127 for byte normals, 1/255 for byte colours; component values are generated inside [-1,1] for tangent-space vectors.",
         "design_ref": "DESIGN.md section 3, C13",
     },
@@ -118,21 +118,21 @@ TEXT = {
     "C19": {
         "engine": "tape-pbt",
         "technique": "property-based testing + exhaustive token-sequence enumeration: canonical-form predicate, idempotence (second clean-up is a no-op) and a differential against an independent non-regex reference of the documented pipeline, through both entry points and every slot kind",
-        "level_text": "All token sequences of length <= 4 (5 thorough) over separators/whitespace/dots/letters/'textures'/'data'/drive/newline x {OB, FO3, SK+} x terrain x both entry points, every slot of every kind, plus random byte strings up to 4 KB; each cleaned path must satisfy the canonical-form predicate and be a fixed point of a second clean-up. Six root causes on the pinned tree are recorded as known findings and excluded by signature so the search continues behind them.",
+        "level_text": "All token sequences of length <= 4 (5 thorough) over separators/whitespace/dots/letters/'textures'/'data'/drive/newline x {OB, FO3, SK+} x terrain x both entry points, every slot of every kind, each shard process warmed up with one clean-up in a configuration recorded in the failure tapes, plus random byte strings up to 4 KB; each cleaned path must satisfy the canonical-form predicate and be a fixed point of a second clean-up. Six root causes on the pinned tree are recorded as known findings and excluded by signature so the search continues behind them.",
         "level_note": "'relative path' is the platform's notion (std::filesystem on Linux); the differential is applied only where the documented pipeline itself ends in a canonical fixed point; a 60 s watchdog turns a hang into a crash of the shard (reported).",
         "design_ref": "DESIGN.md section 3, C19",
     },
     "C01": {
         "engine": "engine-S",
-        "technique": "property-based testing: round-trip / fixed-point oracle over hook-synthesised files of every block type x version (rapidcheck tapes + enumerated pattern tapes) and the sample files",
-        "level_text": "Every registered type x 14 version configurations is instantiated from pattern tapes (exhaustive over type x version) and tens of thousands of random tapes, plus multi-block files and the 26 samples; each accepted file must reach a byte-identical raw fixed point after one write and a default-save fixed point within two rounds. Sampled over field populations; no proof of absence.",
+        "technique": "property-based testing: round-trip / fixed-point oracle over hook-synthesised files of every block type x version (rapidcheck tapes + enumerated pattern tapes + read-site-guided forced-read sweep; libFuzzer over the same tapes in the thorough tier), generated scene-graph files and the sample files",
+        "level_text": "Every registered type x 14 version configurations is instantiated from pattern tapes (exhaustive over type x version) and tens of thousands of random tapes, plus the forced-read sweep (every integer-like read forced to 0..23 one at a time, kept when a new read site is reached), multi-block files, generated scene-graph files (incl. loose Havok chains stored children-first) and the 26 samples; each accepted file must reach a byte-identical raw fixed point after one write and a default-save fixed point within two rounds. Sampled over field populations; no proof of absence.",
         "level_note": "Synthesised files obey the listed format preconditions; first-write normalisation is allowed, only non-idempotent normalisation or read/write asymmetry fails. A crash while reloading the library's own output is reported as a violation.",
         "design_ref": "DESIGN.md section 3, C01",
     },
     "C02": {
         "engine": "engine-S",
         "technique": "property-based testing: same live model saved three times with a query battery before/after each save; byte equality (raw) / string-order-canonical equality (default) and battery equality as oracles",
-        "level_text": "For samples and synthesised files of every type x version, in both save modes, three consecutive saves of one in-memory model must give the same content and every read-only query the same answers; generated exploration, not a proof.",
+        "level_text": "For samples and synthesised files of every type x version, in both save modes, three consecutive saves of one in-memory model must give the same content and every read-only query the same answers; models are also generated scene graphs and are optionally edited through the API before the first save (cleared references, deleted blocks, renamed nodes/shapes, added nodes, named shaders, texture slots, alpha properties); generated exploration, not a proof.",
         "level_note": "The query battery is the public read-only API (harness/common/battery.hpp); across the first default save only the reachable, order-insensitive part is compared (C04 allows permutation/pruning); partition/segment queries only on sample files.",
         "design_ref": "DESIGN.md section 3, C02",
     },
@@ -153,7 +153,7 @@ TEXT = {
     "C08": {
         "engine": "engine-S",
         "technique": "differential testing against a vendored reference build linked into the same process: read-trace differential of the hook-fed synthesiser plus cross-build read/re-encode of generated and sample files",
-        "level_text": "For every registered type x version (pattern tapes, exhaustive over type x version) and random tapes, the reference and the current build must issue the same sequence of typed reads and record the same payload, and files written by either must be re-encoded byte-identically by the other. Detects symmetric read/write changes (gate shifts, swapped fields, width changes) that every round-trip test misses.",
+        "level_text": "For every registered type x version (pattern tapes, exhaustive over type x version) the forced-read sweep over the current build's reading code (switch arms reached one value at a time) and random tapes, the reference and the current build must issue the same sequence of typed reads and record the same payload, and files written by either must be re-encoded byte-identically by the other. Detects symmetric read/write changes (gate shifts, swapped fields, width changes) that every round-trip test misses.",
         "level_note": "The reference is the vendored snapshot in /verif/reference (pinned commit + hooks + fix: commits, see PROVENANCE); it must be re-vendored by hand (bin/vendor_reference) when a wire defect is repaired on purpose.",
         "design_ref": "DESIGN.md section 3, C08",
     },
